@@ -7,6 +7,9 @@ package annotateparser
 
 //@ func ParseCommentFragment
 //@   sweep C01
+//@   props C16
+//@   ensures[one-line-number-per-statement] len(fragment.Stats) == len(fragment.Lines)
+//@   loop 0 invariant len(fragment.Stats) == len(fragment.Lines)
 //@   requires commentInfo != nil
 //@ end
 
@@ -17,6 +20,10 @@ package annotateparser
 
 //@ func clearEmpytAlias
 //@   sweep C01
+//@   props C16
+//@   requires[stats-and-lines-aligned] len(fragment.Stats) == len(fragment.Lines)
+//@   ensures[stats-and-lines-stay-aligned] len(fragment.Stats) == len(fragment.Lines)
+//@   loop 0 invariant len(fragment.Stats) == len(fragment.Lines) && i >= -1
 //@   requires fragment != nil
 //@ end
 
@@ -70,18 +77,32 @@ package annotateparser
 
 //@ func parserSingleType
 //@   sweep C01
+//@   props C16
+//@   ensures[array-wraps-the-single-type] typeis(result, "*annotateast.ArrayType") ==> as(result, "*annotateast.ArrayType").ItemType != nil && !typeis(as(result, "*annotateast.ArrayType").ItemType, "*annotateast.ArrayType")
 //@ end
 
 //@ func parserOneType
 //@   sweep C01
+//@   props C16
+//@   ensures[union-node] typeis(result, "*annotateast.MultiType") && len(as(result, "*annotateast.MultiType").TypeList) >= 1
+//@   loop 0 invariant multiType != nil
 //@ end
 
 //@ func parserFunType
 //@   sweep C01
+//@   props C16
+//@   ensures[function-node] typeis(result, "*annotateast.FuncType")
+//@   ensures[parameter-lists-aligned] len(as(result, "*annotateast.FuncType").ParamNameList) == len(as(result, "*annotateast.FuncType").ParamTypeList) && len(as(result, "*annotateast.FuncType").ParamNameList) == len(as(result, "*annotateast.FuncType").ParamOptionList)
+//@   loop 1 invariant funType != nil && len(funType.ParamNameList) == len(funType.ParamTypeList) && len(funType.ParamNameList) == len(funType.ParamOptionList) && len(funType.ParamNameList) == len(funType.ParamNameLocList)
+//@   loop 2 invariant funType != nil && len(funType.ParamNameList) == len(funType.ParamTypeList) && len(funType.ParamNameList) == len(funType.ParamOptionList)
 //@ end
 
 //@ func parserTableType
 //@   sweep C01
+//@   props C16
+//@   ensures[table-node] typeis(result, "*annotateast.TableType")
+//@   ensures[key-and-value-are-full-union-types] !as(result, "*annotateast.TableType").EmptyFlag ==> typeis(as(result, "*annotateast.TableType").KeyType, "*annotateast.MultiType") && typeis(as(result, "*annotateast.TableType").ValueType, "*annotateast.MultiType")
+//@   ensures[bare-table-has-no-parameters] as(result, "*annotateast.TableType").EmptyFlag ==> as(result, "*annotateast.TableType").KeyType == nil && as(result, "*annotateast.TableType").ValueType == nil
 //@ end
 
 //@ func parserExtraAliasLine
